@@ -210,7 +210,7 @@ def main():
 
 if __name__ == "__main__":
     if len(sys.argv) > 1 and sys.argv[1] == "--replay":
-        hist = json.load(open(sys.argv[2]))
+        hist = json.load(open(sys.argv[2]))["history"]
         print(json.dumps(replay(hist)))
     else:
         main()
